@@ -1,5 +1,6 @@
 """C01 -- optimization never changes what a query computes."""
 import c01_concat
+import c01_rows
 import common
 import preds
 import progcheck
@@ -15,7 +16,10 @@ def run(run):
                 "reductions) x data with nulls x layouts (1-4 partitions, unknown divisions, arbitrary cuts): every optimizer stage vs the unoptimized lowered plan; "
                 "every logged rewrite step of the fragment validated by the verified rule_ok; non-trivial = program with >= 2 steps; "
                 "column selections over concats of differently derived inputs (label-keeping / relabelling / reordering / row-dropping / repartitioning histories x "
-                "index kinds x layouts x joins x consumers) vs the unoptimized lowered plan incl. the names of the index levels")
+                "index kinds x layouts x joins x consumers) vs the unoptimized lowered plan incl. the names of the index levels; "
+                "selections of rows by position (chains of head(n, npartitions=k) / tail(n) / partitions[...] with nothing, element-wise operations, projections, filters, "
+                "relabelling or a repartition between them) over partitions of very different lengths (uneven divisions, empty first / middle / last partitions, selective "
+                "filters) x n below / at / above the partition sizes, 0, negative x consumers vs the unoptimized lowered plan")
     run.proofs("PropC01.v")
     quick = run.tier == "quick"
     m = common.Model()
@@ -25,6 +29,7 @@ def run(run):
     value_changing(run)
     import rt
     c01_concat.run_family(run, rt)
+    c01_rows.run_family(run, rt)
 
 
 def value_changing(run):
@@ -97,3 +102,33 @@ def value_changing(run):
             elif int(got[1]) != int(ref[1]):
                 run.violation("%s of %s: optimized %s, unoptimized %s" % (what, sn, int(got[1]), int(ref[1])), case)
     run.section("value_changing", cases=n, operators=len(ops), consumers=len(consumers), length_shapes=len(shapes))
+
+
+def replay(path):
+    """Replays of the enumerated families (the generated programs are replayed by a run with the recorded seed)."""
+    import json
+    import random
+    with open(path) as f:
+        d = json.load(f)
+    case = d.get("case") or {}
+    fam = {"row-selection": c01_rows, "concat-history": c01_concat}.get(case.get("kind"))
+    if fam is None:
+        print("C01: replay by `VERIF_SEED=%s ./check C01 --tier %s`" % (d.get("seed"), d.get("tier")))
+        return 2
+    import rt
+
+    class _Run:
+        tier, rng, violations = "thorough", random.Random(0), []
+
+        def count(self, *a, **k):
+            pass
+
+        def violation(self, what, case, finding=None):
+            self.violations.append(what)
+
+    r = _Run()
+    n = fam.replay_case(r, rt, case)
+    for w in r.violations:
+        print("C01 replay:", w)
+    print("C01 replay: %d plans evaluated, %d differ from the unoptimized query" % (n, len(r.violations)))
+    return 1 if r.violations else 0
